@@ -38,6 +38,7 @@ var restFixed = []string{
 	`std | (defn va [a & l] (+ a (len l))) @@ (va 1) @@ (va 1 2 3)`,
 	`std | (def n 0) @@ (for [(def i 0) (< i 3) (set i (+ i 1))] (let [x 1] (cond (begin (set n (+ n 1)) (continue)) 1 2))) @@ n`,
 	`std | (for [(def i 0) (< i 3) (set i (+ i 1))] (let [x 1] (cond (break) 1 2)))`,
+	`std | (for [(def i 0) (< i 2) (set i (+ i 1))] (package "p" (def X 1) (continue)))`,
 	`std | (for [(def i 0) (< i 3) (set i (+ i 1))] (let [x 1] (newScope [1 2 (cond (== i 1) (continue) 3)] ^(1 ~(cond (== i 2) (break) 2)))))`,
 	`std | (defn cnt [n acc] (cond (== n 0) acc (cnt (- n 1) (+ acc 1)))) @@ (cnt 50 0)`,
 	`std | (defn cntv [n & r] (cond (== n 0) (len r) (cntv (- n 1) 1 2 3))) @@ (cntv 5)`,
@@ -536,7 +537,7 @@ func (r *rg) st(d int) string {
 				} else if r.labels[len(r.labels)-1] != "" && r.rnd(2) == 0 {
 					continue
 				}
-				switch r.rnd(10) {
+				switch r.rnd(11) {
 				case 4:
 					// in the test of a cond arm, inside a let
 					return fmt.Sprintf("(let [%s 1] (cond (and %s %s) 1 2))", r.fresh("p"), r.be(d-1), tgt)
@@ -551,6 +552,8 @@ func (r *rg) st(d int) string {
 					return fmt.Sprintf("(letseq [%s 1 %s (cond %s %s 2)] 5)", r.fresh("p"), r.fresh("p"), r.be(d-1), tgt)
 				case 9:
 					return fmt.Sprintf("(or false (let [%s 1] (or %s (and %s %s))) 1)", r.fresh("p"), r.be(d-1), r.be(d-1), tgt)
+				case 3:
+					return fmt.Sprintf("(package \"pz\" (def Y 1) (cond %s %s nil))", r.be(d-1), tgt)
 				case 0:
 					return fmt.Sprintf("(cond %s %s nil)", r.be(d-1), tgt)
 				case 1:
